@@ -1662,6 +1662,10 @@ def oracle_C25(run):
                     bad = [(k, loc[k], view.get(k)) for k in loc if k < 256 and view.get(k) != loc[k]]
                     if bad:
                         out.append(fail('server-view-differs-from-client-settings', i, differs=bad[:4]))
+                    elif st1[2] != loc.get(4, 65535) or sa['max_out'] != loc.get(5, 16384):
+                        # the settings are in force, not just stored: stream 1 may send what the client's window allows
+                        out.append(fail('client-settings-not-in-force-on-stream-1', i, out_win=st1[2], want=loc.get(4, 65535),
+                                        max_out=sa['max_out'], want_max=loc.get(5, 16384)))
     # afterwards: first new ids are 3 and 2
     for i, (op, ol, ml, obs) in enumerate(run.log):
         if obs is None or op['op'] != 'q' or op['what'] != 'next_stream_id':
